@@ -71,8 +71,13 @@ def lattices(draw, max_n=12, flags=True, min_cells=1, spacings=SPACINGS):
             dh_mode = "decimal"     # no two neighbouring cells: the spacing cannot be inferred, it has to be given
         else:
             cells = [pair[0], pair[1]] + [c for c in cells if c != pair[0] and c != pair[1]]
-    return {"dh": dh, "lon0": dec(lon0, d), "lat0": dec(lat0, d), "cells": cells, "flags": fl,
-            "origin_mode": draw(st.sampled_from(["clean", "clean", "mid"])), "dh_mode": dh_mode}
+    out = {"dh": dh, "lon0": dec(lon0, d), "lat0": dec(lat0, d), "cells": cells, "flags": fl,
+           "origin_mode": draw(st.sampled_from(["clean", "clean", "mid"])), "dh_mode": dh_mode}
+    if fl is not None:
+        mc = draw(st.sampled_from(["ndarray", "ndarray", "list", "tuple", "int_ndarray"]))
+        if mc != "ndarray":
+            out["mask_container"] = mc       # the per-cell flags handed to the constructor as a list / tuple / integer array
+    return out
 
 
 class Lattice:
@@ -133,8 +138,10 @@ class Lattice:
         if ctor == "from_origins":
             r = CartesianGrid2D.from_origins(o, dh=None if none else dh, magnitudes=magnitudes)
         elif ctor == "ctor_mask":
-            r = CartesianGrid2D([Polygon(b) for b in compute_vertices(o, dh)], dh,
-                                mask=numpy.array(self.flags, dtype=float), magnitudes=magnitudes)
+            mc = self.case.get("mask_container", "ndarray")
+            mask = {"ndarray": lambda f: numpy.array(f, dtype=float), "int_ndarray": lambda f: numpy.array(f, dtype=numpy.int64),
+                    "list": lambda f: [int(x) for x in f], "tuple": lambda f: tuple(int(x) for x in f)}[mc](self.flags)
+            r = CartesianGrid2D([Polygon(b) for b in compute_vertices(o, dh)], dh, mask=mask, magnitudes=magnitudes)
         elif ctor == "dict":
             r0 = CartesianGrid2D.from_origins(o, dh=None if none else dh)
             import json
